@@ -67,9 +67,29 @@ Theorem C17_lookup_spec : forall x lines st host addr port r,
   exists ip, lookup_ip x host addr = Some ip /\
   forall m k, In k (keys_of m r) <->
               exists p, In (m, p, k) (kh_entries x lines) /\
-                        line_selects x p (lookup_name host port) (lookup_name addr port) ip = true.
+                        line_selects x p (lookup_name host port) (lookup_name addr port) (pass_ip ip port) = true.
 Proof. exact kh_match_spec. Qed.
 Print Assumptions C17_lookup_spec.
+
+(* Address and CIDR entries are consulted only when the plain names are looked up (pass_ip above is
+   None whenever a port is given): in a pass with a port they never match, so an undecorated address
+   entry cannot select a line whose negated names are being compared with [name]:port forms.
+   (Repaired by 9f68483.) *)
+Theorem C17_address_entries_plain_only : forall n host addr ip port,
+  port <> 0 -> hp_match (HCidr n) host addr (pass_ip ip port) = false.
+Proof. exact cidr_needs_plain_pass. Qed.
+Print Assumptions C17_address_entries_plain_only.
+
+(* Before that repair (kh_lookup_lines_mid): line "127.0.0.1,!g K", lookup of host g at 127.0.0.1 port
+   2222 returned K as trusted although the negated component g matches the host name - "a negated
+   match always excludes the line" was violated.  True of that old definition only. *)
+Theorem C17_negation_with_port_mid_refuted :
+  exists x lines host addr port p k neg r,
+    In (MNone, p, k) (kh_entries x lines) /\
+    In (true, neg) (plist_split p) /\ wild_match neg host = true /\
+    kh_lookup_lines_mid x lines host addr port = Some r /\ In k (r_host r).
+Proof. exact negation_bypassed_with_port_mid. Qed.
+Print Assumptions C17_negation_with_port_mid_refuted.
 
 (* The [host]:port fallback: when a port was given and the lookup with the port found no trusted key
    and no CA key, trusted and CA keys come from the plain-name lookup and the revoked keys from both
@@ -91,7 +111,7 @@ Theorem C17_revoked_kept : forall x lines host addr port r ip p k,
   kh_lookup_lines x lines host addr port = Some r ->
   lookup_ip x host addr = Some ip ->
   In (MRevoked, p, k) (kh_entries x lines) ->
-  line_selects x p (lookup_name host port) (lookup_name addr port) ip = true ->
+  line_selects x p (lookup_name host port) (lookup_name addr port) (pass_ip ip port) = true ->
   In k (r_revoked r).
 Proof. exact revoked_line_reported. Qed.
 Print Assumptions C17_revoked_kept.
@@ -336,3 +356,11 @@ Proof. vm_compute. auto. Qed.
 (* a value ending in a backslash is outside the format: its quoted form is refused, as by OpenSSH *)
 Example C17_ex_trailing_backslash : tokenize (print_opts ossh_escape [([120], [97; 92])] ++ [32; 107]) = None.
 Proof. exact tokenize_ossh_trailing_backslash_refused. Qed.
+
+(* "127.0.0.1,!g K" looked up at 127.0.0.1 port 2222: excluded for host g, returned for host h *)
+Example C17_ex_negation_with_port :
+  kh_lookup_lines wit_ext [[49;50;55;46;48;46;48;46;49;44;33;103;32;75]] [103] [49;50;55;46;48;46;48;46;49] 2222
+  = Some {| r_host := []; r_ca := []; r_revoked := [] |} /\
+  kh_lookup_lines wit_ext [[49;50;55;46;48;46;48;46;49;44;33;103;32;75]] [104] [49;50;55;46;48;46;48;46;49] 2222
+  = Some {| r_host := [7]; r_ca := []; r_revoked := [] |}.
+Proof. exact negation_with_port_now_excludes. Qed.
